@@ -15,6 +15,7 @@ from pbsym.ctx import B
 from pbsym.models.quiet import Clock, num
 
 PROPERTY = 'C18'
+TECHNIQUE = 'CrossHair/z3 symbolic execution of metadata production over symbolic programs, termination points, extractor kinds, clock rationals and caller contexts'
 FUNCTIONS = ['playback/tape_recorder.py::TapeRecorder._operation',
              'playback/tape_recorder.py::TapeRecorder.start_recording',
              'playback/tape_recorder.py::TapeRecorder._add_post_operation_metadata',
